@@ -282,11 +282,23 @@ def r3(ck, F):
         g, _ = guards_of(b, bb)
         txt = {x for x, v in g if v != 0}
         c_is_1 = any("Eq 1" in x and "get(" in x for x in txt)
+        # ... or compared with something the guard itself recorded when the close began (a per-close base)
+        c_is_base = any(x.startswith("Eq") and "get(" in x and "arg1" in x and "is_closing" not in x for x in txt) and not c_is_1
         closing = any("is_closing" in x for x in txt)
-        if c_is_1 and closing:
+        if (c_is_1 or c_is_base) and closing:
             ck.ok("C05.R3", "clear guarded by (close count == 1) and is_closing", fn=dg, detail=sorted(txt))
         else:
             ck.bad("C05.R3", "clear guarded by (close count == 1) and is_closing", where(t["sp"]), "guards on the path to Pool::clear: %s" % sorted(g), fn=dg)
+        # `count == 1` means "no other on_close frame is open on this thread" -- of any span. A close that begins while
+        # another span's close is being handled on the same thread (a handle dropped inside on_close; sharded_slab
+        # running a deferred clear when try_close lets go of its Ref) never sees 1: the span is reported closed to every
+        # layer and then stays in the registry, holding its parent open for good.
+        k2 = "the removal decision counts this close's own guards only (not every on_close frame open on the thread)"
+        if c_is_1:
+            ck.bad("C05.R3", k2, where(t["sp"]), "Pool::clear is reached only when the thread-wide CLOSE_COUNT is exactly 1: a close nested in another span's close "
+                   "is reported to the layers but its slot is never cleared and its parent never released", fn=dg)
+        elif c_is_base and closing:
+            ck.ok("C05.R3", k2, fn=dg)
         # decrement happens before the clear (a nested close started by clearing must see the lower count)
         sets = [sb for sb, tt in b.calls() if tt["callee"].get("method") == "set" and "Cell" in tt["callee"]["path"]]
         if len(sets) == 1 and b.dominates(sets[0], bb):
